@@ -250,6 +250,13 @@ func C12(t *rapid.T) *world.Scenario {
 		sc = C20(t)
 	}
 	sc.Prop = "C12"
+	// twins are compared exchange by exchange: nothing in the base history may depend on the
+	// order of simultaneous events (a streamed background body ends between two requests)
+	for _, st := range sc.Steps {
+		if st.Op == "req" && st.Req.Bg != nil {
+			st.Req.Bg.Body.PauseAt = 0
+		}
+	}
 	// The rewrites below preserve meaning only for well-formed lists: a quoted string that
 	// never closes swallows whatever follows it, so moving it moves the damage. The
 	// malformed arguments of the C01 generator become a plain invalid token here.
